@@ -38,6 +38,10 @@ type Dir struct {
 	readerClosed bool
 	writerClosed bool
 
+	// FlipAt: (absolute offset in the injected stream, xor mask) pairs applied by Inject
+	FlipAt   [][2]int64
+	Injected int64
+
 	// statistics
 	Reads, Writes int
 }
@@ -97,7 +101,16 @@ func (d *Dir) Take() []byte {
 }
 
 // Inject appends bytes as if the peer had written them. Scheduler only.
-func (d *Dir) Inject(b []byte) { d.Inflight = append(d.Inflight, b...) }
+func (d *Dir) Inject(b []byte) {
+	start := d.Injected
+	d.Inflight = append(d.Inflight, b...)
+	d.Injected += int64(len(b))
+	for _, f := range d.FlipAt {
+		if f[0] >= start && f[0] < d.Injected {
+			d.Inflight[len(d.Inflight)-int(d.Injected-f[0])] ^= byte(f[1])
+		}
+	}
+}
 
 // SetEOF makes the reader see EOF once what is readable has been read. Scheduler only.
 func (d *Dir) SetEOF() { d.EOF = true; poke(d.rsig) }
@@ -163,6 +176,7 @@ func (c *Conn) Read(p []byte) (int, error) {
 			case <-t.C:
 			}
 		} else {
+			simrt.At(c.Name + ".Read")
 			<-d.rsig // durable block until the scheduler delivers or somebody closes
 		}
 		simrt.NetWoke(c.Name + ".Read")
@@ -201,6 +215,7 @@ func (c *Conn) Write(p []byte) (int, error) {
 				case <-t.C:
 				}
 			} else {
+				simrt.At(c.Name + ".Write")
 				<-d.wsig
 			}
 			simrt.NetWoke(c.Name + ".Write")
